@@ -151,14 +151,42 @@ def riemann_error(WL, WR, flux, rname, iname, n):
     u = gq.phydata("velocity")
     if not (np.all(np.isfinite(rho)) and np.all(np.isfinite(pr))):
         return np.nan
+    riemann_error.fan = fan_jump(WL, WR, xc / T, rho, g)
     return float(np.mean(np.abs(rho - ex[0])) / np.mean(ex[0]) + np.mean(np.abs(pr - ex[2])) / np.mean(ex[2]) + np.mean(np.abs(u - ex[1])) / (np.mean(np.abs(ex[1])) + 1.0))
+
+
+def fan_jump(WL, WR, xi, rho, g=1.4):
+    """largest density jump between neighbouring cells strictly inside each rarefaction fan of the exact solution, relative to the density
+    change across the fan; (jump, number of cells in the fan) per fan.  A fan is smooth: the jump behaves like 1/cells under refinement;
+    a stationary expansion shock (lost entropy fix at a sonic point) keeps it constant."""
+    pm, um = rs.star(WL, WR, g)
+    out = []
+    for side, (r0, u0, p0) in (("L", WL), ("R", WR)):
+        if pm >= p0 * (1 - 1e-9):
+            continue
+        a0 = np.sqrt(g * p0 / r0)
+        am = a0 * (pm / p0) ** ((g - 1) / (2 * g))
+        head, tail = (u0 - a0, um - am) if side == "L" else (u0 + a0, um + am)
+        lo, hi = min(head, tail), max(head, tail)
+        w = hi - lo
+        inside = np.flatnonzero((xi > lo + 0.1 * w) & (xi < hi - 0.1 * w))
+        if inside.size < 3:
+            out.append((np.nan, int(inside.size)))
+            continue
+        seg = rho[inside[0]:inside[-1] + 1]
+        drho = abs(r0 - r0 * (pm / p0) ** (1 / g))
+        out.append((float(np.abs(np.diff(seg)).max() / drho), int(inside.size)))
+    return out
 
 
 def check_riemann(pi, flux, rname, iname, ns, res=None):
     WL, WR = problems()[pi]
     out = []
     site = "C04/riemann/%s/%s" % (flux, rname.replace(":", "-"))
-    errs = [riemann_error(WL, WR, flux, rname, iname, n) for n in ns]
+    errs, fans = [], []
+    for n in ns:
+        errs.append(riemann_error(WL, WR, flux, rname, iname, n))
+        fans.append(getattr(riemann_error, "fan", []))
     ML, MR = mirror(WL, WR)
     errm = [riemann_error(ML, MR, flux, rname, iname, n) for n in ns[:2]]
     if res is not None:
@@ -173,6 +201,18 @@ def check_riemann(pi, flux, rname, iname, ns, res=None):
     # the statement is monotone decrease (every ratio < 1); on the finest pair the waves are resolved and the ratio must be clearly below one
     if not (max(ratios) <= 0.99 and ratios[-1] <= 0.9):
         out.append((site + "/error-does-not-decrease", "%s %s %s problem %r|%r: L1 errors %r on n=%r, ratios %r (every ratio must be < 1, the last <= 0.9: a first-order scheme resolves a contact like dx^0.5, ratio 0.71)" % (flux, rname, iname, WL, WR, errs, ns, ratios)))
+    # rarefactions at the right strength: inside a fan resolved by >= 6 cells on the coarsest level the largest cell-to-cell density jump
+    # shrinks under refinement (like 1/cells: a factor 4 from n to 4n; required: a factor 1/0.6)
+    for k in range(len(fans[0])):
+        j0, c0 = fans[0][k]
+        j1, c1 = fans[2][k] if len(fans) > 2 and len(fans[2]) > k else (np.nan, 0)
+        if c0 >= 6 and np.isfinite(j0) and np.isfinite(j1):
+            if res is not None:
+                res.worst("fan-jump-ratio(n to 4n)", j1 / j0 if j0 > 0 else 0.0)
+                res.census["riemann/fans-judged"] += 1
+            if not j1 <= 0.6 * j0:
+                out.append((site + "/rarefaction-not-smooth", "%s %s %s problem %r|%r: largest density jump inside rarefaction fan %d is %.3g of the fan on n=%d and %.3g on n=%d: it does not shrink (expansion shock?)"
+                            % (flux, rname, iname, WL, WR, k, j0, ns[0], j1, ns[2])))
     for a, b in zip(errs, errm):
         if not abs(a - b) <= 1e-8 * abs(a) + 1e-300:
             out.append((site + "/mirror-problem-error-differs", "%s %s %s problem %r|%r: error %r, mirror image %r" % (flux, rname, iname, WL, WR, a, b)))
